@@ -1815,6 +1815,37 @@ static void do_rel(CMR* cmr)
   CMRchrmatFree(cmr, &N);
 }
 
+/* ---------- C16: equimodularity ---------- */
+
+/* case: variant(0 equimodular, 1 strongly equimodular, 2 unimodular, 3 strongly unimodular) kin M
+ * record: variant kin M rc verdict(0/1, 2 = not written) kout */
+static void do_equimod(CMR* cmr)
+{
+  long long variant = nx(), kin = nx();
+  CMR_INTMAT* M = read_intmat(cmr);
+  unsigned char flag = 2;
+  int64_t k = kin;
+  CMR_ERROR rc;
+  if (variant == 0)
+    rc = CMRequimodularTest(cmr, M, (bool*) &flag, &k, NULL, NULL, TL);
+  else if (variant == 1)
+    rc = CMRequimodularTestStrong(cmr, M, (bool*) &flag, &k, NULL, NULL, TL);
+  else if (variant == 2)
+    rc = CMRunimodularTest(cmr, M, (bool*) &flag, NULL, NULL, TL);
+  else
+    rc = CMRunimodularTestStrong(cmr, M, (bool*) &flag, NULL, NULL, TL);
+  note_rc(rc, 0);
+  rec_begin();
+  oi(variant);
+  oi(kin);
+  o_int_dense(M);
+  oi(rc);
+  oi(flag);
+  oi(variant < 2 ? k : 0);
+  rec_end();
+  CMRintmatFree(cmr, &M);
+}
+
 /* ---------- dispatch ---------- */
 
 typedef void (*handler)(CMR*);
@@ -1844,12 +1875,13 @@ static struct
   {"textread", do_textread},      /* 15 */
   {"rel", do_rel},                /* 16 */
   {"textwrite", do_textwrite},    /* 17 */
+  {"equimod", do_equimod},        /* 18 */
   {"tlimit", do_tlimit},
   {"hist", do_hist},
   {"threads", do_threads},
   {NULL, NULL}
 };
-#define NUM_SUB_APIS 18
+#define NUM_SUB_APIS 19
 
 /* ---------- running a handler with its record captured in memory ---------- */
 
